@@ -22,7 +22,8 @@ from fractions import Fraction
 
 import numpy as np
 
-from .common import coqbool, hexf, zl
+from .common import coqbool, hexf, zl, grep_gate, dep_closure
+from . import c07_2d
 
 PROP = 'C07'
 EPS = 2.0 ** -52
@@ -1079,10 +1080,13 @@ def run(ctx):
     ctx.rule = ('cases: captured runs of every spline method (11 asls-type + iasls, drpls, aspls, mpspline, pspline_smooth) x '
                 '{numba, sparse-fallback} path x {lower, full} bands x degree 0-5 x diff_order 1-4 x num_knots 2-20 x x-layout '
                 '(dyadic dense/sparse/on-knots/clustered, real uniform/random/clustered, unsorted); distinct = distinct '
-                '(method, path, degree, bases, diff_order, lam, layout, data); non-trivial = more than 2 points and diff_order < bases; '
+                '(method, path, degree, bases, diff_order, lam, layout, data); 2-D: the 10 Baseline2D spline methods with independent '
+                'knots / degree / diff_order / lam per axis, sorted and unsorted x, z; non-trivial = more than 2 points and diff_order < bases; '
                 'oracle cases are (run, pass) pairs, on fresh fitters and along sequences of 2-4 calls sharing one Baseline object '
                 '((num_knots, degree) pairs with equal sum / equal number of basis functions, different methods in a row)')
     ctx.trusted += [
+        '2-D: scipy.sparse kron / identity / @ / + and spsolve (modelled by the index functions of C20/Model.v; contract of '
+        'spsolve sampled by the oracle); the array algebra of _make_btwb / rhs / output is C20 (imported theorems)',
         'banded solvers (scipy solveh_banded / solve_banded): Section variable with contract den(lhs) * solve = rhs; '
         'sampled by the backward-error certificate of the oracle',
         'scipy.sparse products + _sparse_to_banded of the fallback path and of pspline_iasls: modelled by their contract '
@@ -1092,14 +1096,25 @@ def run(ctx):
         'float rounding between the ring theorems and the IEEE run: the PrimFloat instance of the SAME model is compared bit for bit',
     ]
     ctx.gate()
-    ctx.translate(['GenBands'])
+    bad = grep_gate(only=dep_closure('props/C07_2d.v'))
+    ctx.obligations.append('grep-gate:2d-closure')
+    if bad:
+        ctx.broke('grep-gate-2d', '; '.join(bad[:10]))
+    else:
+        ctx.discharged.append('grep-gate:2d-closure')
+    ctx.translate(['GenBands', 'GenC20'])
     ok = ctx.build_props(extra=['C07/Float.vo'])
+    ok = ctx.build_props(rel='props/C07_2d.v', extra=['C07/Float2D.vo']) and ok
     correspondence(ctx)
+    c07_2d.correspondence_2d(ctx)
     budget = 1 if (ok and not ctx.broken) else 4
     if ctx.tier == 'thorough':
         budget = max(budget, 3)
     found = search(ctx, budget)
-    ctx.note(f'direct oracle budget x{budget}: {found} failing runs; 2-D PSpline2D (two_d/spline.py) is NOT modelled or searched; '
+    import sys
+    found += c07_2d.search_2d(ctx, budget, sys.modules[__name__])
+    ctx.note(f'direct oracle budget x{budget}: {found} failing runs; 2-D: the Coq comparison is on exact (dyadic, degree <= 2, '
+             'at most 16 coefficients) inputs only, larger / real 2-D inputs through the dense Kronecker oracle; '
              'sparse-fallback assembly for degree >= 3 is covered by the oracle only (summation order of scipy.sparse is unspecified); '
              'lam <= 0 and non-finite inputs are outside the model')
 
@@ -1120,6 +1135,9 @@ def replay(rep):
         def broke(self, *a):
             self.fails.append(a)
     c = _C()
+    if case.get('kind') in ('oracle2d', 'capture2d'):
+        import sys
+        return c07_2d.replay_2d(case, sys.modules[__name__])
     if case.get('kind') == 'smooth':
         check_smooth(c, case['numba'], np.array(case['x']), np.array(case['y']),
                      None if case['w'] is None else np.array(case['w']), case['kw'], case)
